@@ -418,6 +418,16 @@ func (d *GroupDom) Call(in *Interp, site ssa.Instruction, fn *ssa.Function, args
 		for i := range a.Elems {
 			a.Elems[i] = d.Digit(fmt.Sprintf("%s.d%d", nm, i))
 		}
+		if fn.Signature.Results().Len() == 0 {
+			// the digits are written through an out-parameter instead of being returned
+			for _, arg := range args[1:] {
+				if op, ok := arg.(Ptr); ok {
+					in.Store(site, op, a)
+					return nil, true
+				}
+			}
+			in.Undecided(site, "signedRadix16 neither returns its digits nor has an array out-parameter")
+		}
 		return []Val{a}, true
 	case "(*Scalar).nonAdjacentForm":
 		ptr, _ := args[0].(Ptr)
